@@ -24,7 +24,8 @@ PROF = "/tmp/covprof"
 args = sys.argv[1:]
 if "--build" in args:
     args.remove("--build")
-    env = dict(os.environ, CARGO_TARGET_DIR=TGT, RUSTFLAGS="--cfg sozu_verif -C instrument-coverage", CARGO_NET_OFFLINE="true")
+    env = dict(os.environ, CARGO_TARGET_DIR=TGT, RUSTFLAGS="--cfg sozu_verif -C instrument-coverage", CARGO_NET_OFFLINE="true",
+               LLVM_PROFILE_FILE="/tmp/covprof/build-%p.profraw")   # instrumented build scripts run in /repo/<crate>: keep their profiles out of /repo
     subprocess.check_call(["cargo", "+nightly", "build", "--offline", "--release", "--bins"], cwd=os.path.join(ROOT, "harness"), env=env)
 props = {json.loads(l)["id"]: json.loads(l) for l in open(os.path.join(ROOT, "properties.jsonl"))}
 ids = args or sorted(props)
